@@ -78,6 +78,12 @@ CONF = {
         "tiers": tiers(8, 1500, 16, 40000),
         "require_classes": ["pop", "lazy-change", "immediate-change", "frame-after-lazy", "extreme-priority", "successor-displayed", "popped>=2"],
     },
+    "C03": {
+        "rule": "cases = sequential programs on auto-refreshing containers (render requests injected by the harness racing with the library's early refresh, or a real 1-3 ms ticker): 1-6 bars with on-complete/on-abort fillers and decorator wrapper stacks, removal on completion, aborts with and without drop, pop mode, queued successors, post-terminal updates, optional cancel/Shutdown; non-trivial = >=2 bars, >=1 completed bar in the last frame and >=1 aborted, removed, popped or replaced bar, and no render-cycle step after the last update (the last frame has to come from early refresh or the final render); distinct by FNV-64 of the scenario JSON",
+        "assumptions": GO_ASSUME + SCHED_ASSUME + ["which bars remain is computed from the program by a reference end-state model (first terminal event wins; successor replaces; pop mode pops out; remove-on-complete / abort with drop removes); under cancel/Shutdown only shown rows are judged", "hangs are left to C01 (counted, not judged here)"],
+        "tiers": tiers(8, 2500, 16, 40000),
+        "require_classes": ["refresh:autoinj", "refresh:autort", "final:completed", "final:aborted", "final:gone", "pop", "cancelled"],
+    },
     "C05": {
         "rule": "cases = sequential scenarios (container config, 1-7 bar specs, program of add/incr/set/abort/priority/write/tick/cancel steps) drawn by rapid; non-trivial = >=3 frames and >=1 change of the displayed set between frames; distinct by FNV-64 of the scenario JSON",
         "assumptions": GO_ASSUME + SCHED_ASSUME + ["one output Write call = one frame (cwriter flushes its buffer with a single Write)", "exact frame model only for manual refresh, sequential client and queue length > number of bars; otherwise history invariants"],
